@@ -94,9 +94,32 @@ class Problem:
             s.data['observed'][...] = self.obs
         return s
 
-    def simulation(self, m, file_dir=None):
+    def comp_grids(self):
+        """Computational grids of different sizes covering the model grid."""
+        def h(n, length):
+            return np.ones(n)*length/n
+        gs = [(8, 8, 8), (12, 8, 8), (8, 12, 8), (16, 8, 8)]
+        return [emg3d.TensorMesh([h(a, 900.), h(b, 1000.), h(c, 900.)],
+                                 (-450, -500, -450)) for a, b, c in gs]
+
+    def simulation(self, m, file_dir=None, gmode='same'):
+        kw = {}
+        if gmode == 'input':
+            kw = dict(gridding='input', gridding_opts=self.comp_grids()[1])
+        elif gmode == 'dict':
+            gs = self.comp_grids()
+            d, k = {}, 0
+            for s in self.src:
+                d[s] = {}
+                for i in range(len(self.freqs)):
+                    d[s][f"f-{i+1}"] = gs[k % len(gs)]
+                    k += 1
+            # biggest grid not first, and not a self-inverse arrangement
+            kw = dict(gridding='dict', gridding_opts=d)
+        else:
+            kw = dict(gridding='same')
         return emg3d.Simulation(
-            self.survey(), self.model(m), gridding='same', max_workers=1,
+            self.survey(), self.model(m), max_workers=1, **kw,
             receiver_interpolation='linear',
             solver_opts={'plain': True, 'tol': 1e-5, 'tol_gradient': 1e-4,
                          'maxit': 30},
